@@ -89,8 +89,8 @@ Print Assumptions C07_isolation.
 (** after any history, no live instance holds anything computed from old
     definitions: its context is the one the current parameter formulas give,
     its copy of the base is the current base, and every cached value is the
-    specification value under the current definitions (the instance was either
-    deleted by the edit or its cache was cleared) *)
+    specification value under the current definitions (an edit deletes every
+    instance that copied the edited space) *)
 Theorem C07_fresh : forall fuel d0 ops r,
   In r (st_live (run fuel (init d0) ops)) ->
   let d := st_defs (run fuel (init d0) ops) in
@@ -106,3 +106,11 @@ Print Assumptions C07_fresh.
 Theorem C07_fresh_step : forall fuel st o, Inv st -> Inv (fst (step fuel st o)).
 Proof. exact step_preserves_inv. Qed.
 Print Assumptions C07_fresh_step.
+
+(** an accepted edit of a space (formula, new / deleted cells, new / changed / deleted reference, new / deleted
+    child space, parameter formula) leaves no live instance that contains a dynamic space built from it:
+    the root ItemSpaces are discarded, not updated in place *)
+Theorem C07_edit_discards : forall fuel st o p st' r,
+  edited_space o = Some p -> step fuel st o = (st', ODone) -> In r (st_live st') -> has_dynsub p r = false.
+Proof. exact edit_discards. Qed.
+Print Assumptions C07_edit_discards.
